@@ -75,6 +75,7 @@ type Exec struct {
 	trigActive int
 	root       string // root-cause class shared by every consequence seen in this run
 	cutOff     string // transient root cause noted during the run (see noteCutOff)
+	c08Pending []c08Refusal
 }
 
 func (ex *Exec) noteState() {
@@ -206,6 +207,7 @@ func Run(t *testing.T, prop string, seed uint64, tier string, replay *hcommon.Re
 		out = simrt.Run(cfg, ex.main)
 	})
 	simrt.ObserveHook = nil
+	ex.flushC08()
 	hcommon.Fill(&res, out)
 	if len(p.Clients) > 0 && ex.c != nil && res.Abort == "" {
 		// pure checks over the recorded history, outside the bubble
@@ -434,12 +436,35 @@ func (ex *Exec) checkJoinResult(h, via *NodeH, err error) {
 		// scenarios (no graceful leaves) are the ones that decide this.
 		return
 	}
-	class := "join-nonretryable/" + errClassName(err)
-	if g := ex.ghostPredecessor(); g != "" && (errors.Is(err, spec.ErrNodeNotStarted) || errors.Is(err, spec.ErrNodeNoSuccessor)) {
-		// consequence of a recognised root cause (see ghostPredecessor)
-		class = g
+	// judged when the run is over: whether this refusal is a consequence of the recognised root cause
+	// (a joiner that was admitted and then gave up, see ghostPredecessor) is only known once that
+	// joiner's own Join has returned, which may be after this one
+	ex.c08Pending = append(ex.c08Pending, c08Refusal{
+		ghostKind: errors.Is(err, spec.ErrNodeNotStarted) || errors.Is(err, spec.ErrNodeNoSuccessor),
+		class:     "join-nonretryable/" + errClassName(err),
+		msg:       fmt.Sprintf("join of n%d (id %d) via %s failed with non-retryable error: %v", h.Slot, h.ID, via.Name, err),
+	})
+}
+
+type c08Refusal struct {
+	ghostKind  bool
+	class, msg string
+}
+
+// flushC08 records the non-retryable join refusals seen during the run.
+func (ex *Exec) flushC08() {
+	g := ""
+	if ex.c != nil {
+		g = ex.ghostPredecessor()
 	}
-	ex.res.Violate("C08", class, "join of n%d (id %d) via %s failed with non-retryable error: %v", h.Slot, h.ID, via.Name, err)
+	for _, r := range ex.c08Pending {
+		class := r.class
+		if g != "" && r.ghostKind {
+			class = g
+		}
+		ex.res.Violate("C08", class, "%s", r.msg)
+	}
+	ex.c08Pending = nil
 }
 
 func errClassName(err error) string {
